@@ -154,6 +154,11 @@ class Gen:
         self.h.send("cfg %d %s %08x %d %s %d %s %d 7f000001 %s" % (
             1 if self.check_ip else 0, vlib.hx(self.pw), self.myip, self.netbits, vlib.hx(self.srvtd), self.mtu,
             rng.choice(["00000000", "00000000", "c0a80001"]), self.bind, "00" * 15 + "01"))
+        # the server's clock: usually small, sometimes just below 2^31 (the session crosses 2038-01-19) or beyond it
+        epoch = rng.choice([1000] * 7 + [2147483000, 2147483647 - 30, 2200000000])
+        if epoch != 1000:
+            self.now = epoch
+            self.h.send("time %d" % self.now)
 
     # ---- plumbing
     def dnsid(self, zero_ok=True):
